@@ -23,7 +23,7 @@ from . import VERIF
 from .rng import mix
 
 KNOWN_FINDINGS = os.path.join(VERIF, 'known_findings.json')
-REPLAY_DIR = os.path.join(VERIF, 'replays')
+REPLAY_DIR = os.environ.get('VSIM_REPLAY_DIR') or os.path.join(VERIF, 'replays')
 EVIDENCE_DIR = os.path.join(VERIF, 'evidence')
 
 
